@@ -458,6 +458,12 @@ def check(ctx):
     r2_make_xarray_grid(ctx)
     r3_mesh(ctx)
     r4_profile(ctx)
+    from . import c07
+    ctx.alias = {"R5": "R4"}          # profile() places its points with profile_coordinates: the formula rule of C07.R5 is part of C05.R4
+    try:
+        c07.r5_profile(ctx)
+    finally:
+        ctx.alias = {}
     r5_scatter(ctx)
     r6_project_coordinates(ctx)
     r7_metadata(ctx)
